@@ -76,12 +76,12 @@ example : serialised [(0, 2), (1, 1), (0, 1)] =
 
 /-- **interference_exists**: without a lock there is a schedule in which session 0 reads session 1's
 module (0 begins, 1 begins, 0 reads). -/
-theorem interference_exists : (run ⟨false⟩ witness).log = [(0, some 1)] := by decide
+theorem interference_exists : (run ⟨false, true⟩ witness).log = [(0, some 1)] := by decide
 
-theorem interference_not_isolated : ¬ Isolated (run ⟨false⟩ witness) := by decide
+theorem interference_not_isolated : ¬ Isolated (run ⟨false, true⟩ witness) := by decide
 
 /-- the same schedule under the lock: session 1's begin is blocked, session 0 reads its own module -/
-theorem witness_harmless_with_lock : (run ⟨true⟩ witness).log = [(0, some 0)] := by decide
+theorem witness_harmless_with_lock : (run ⟨true, true⟩ witness).log = [(0, some 0)] := by decide
 
 /-! ### a lock around set…reads makes every schedule safe -/
 
@@ -89,7 +89,7 @@ theorem witness_harmless_with_lock : (run ⟨true⟩ witness).log = [(0, some 0)
 def LockInv (st : St) : Prop :=
   (∀ s ∈ st.active, st.lock = some s) ∧ (∀ s, st.lock = some s → st.cur = some s) ∧ Isolated st
 
-theorem step_lockInv (st : St) (e : Sess × Act) (h : LockInv st) : LockInv (step ⟨true⟩ st e) := by
+theorem step_lockInv (d : Bool) (st : St) (e : Sess × Act) (h : LockInv st) : LockInv (step ⟨true, d⟩ st e) := by
   obtain ⟨s, a⟩ := e
   obtain ⟨h1, h2, h3⟩ := h
   cases a with
@@ -134,18 +134,35 @@ theorem step_lockInv (st : St) (e : Sess × Act) (h : LockInv st) : LockInv (ste
       · intro t ht
         simp [hl] at ht
     · exact ⟨h1, h2, h3⟩
+  | crash =>
+    simp only [step]
+    split
+    · next hact =>
+      have hl := h1 s hact
+      refine ⟨?_, ?_, h3⟩
+      · intro t ht
+        simp only [mem_filter, decide_eq_true_eq] at ht
+        have := h1 t ht.1
+        rw [hl] at this
+        exact absurd (Option.some.inj this).symm ht.2
+      · intro t ht
+        cases d
+        · simp only [Bool.false_and, Bool.false_eq_true, if_false] at ht
+          exact h2 t ht
+        · simp [hl] at ht
+    · exact ⟨h1, h2, h3⟩
 
 /-- **with_lock_isolated**: if set…reads is a critical section, EVERY schedule is isolated. -/
-theorem with_lock_isolated (sched : List (Sess × Act)) : Isolated (run ⟨true⟩ sched) := by
-  have h : ∀ st, LockInv st → LockInv (runFrom ⟨true⟩ st sched) := by
+theorem with_lock_isolated (d : Bool) (sched : List (Sess × Act)) : Isolated (run ⟨true, d⟩ sched) := by
+  have h : ∀ st, LockInv st → LockInv (runFrom ⟨true, d⟩ st sched) := by
     induction sched with
     | nil => intro st h; exact h
-    | cons e es ih => intro st h; exact ih _ (step_lockInv st e h)
+    | cons e es ih => intro st h; exact ih _ (step_lockInv d st e h)
   have h0 : LockInv St.init :=
     ⟨(by intro s hs; cases hs), (by intro s hs; cases hs), (by intro e he; cases he)⟩
   exact (h St.init h0).2.2
 
-example : Isolated (run ⟨true⟩ [(0, .begin), (1, .begin), (0, .read), (1, .read), (0, .finish), (1, .begin), (1, .read)]) := by
+example : Isolated (run ⟨true, true⟩ [(0, .begin), (1, .begin), (0, .read), (1, .crash), (0, .crash), (1, .begin), (1, .read)]) := by
   decide
 
 /-- safety for every schedule ⟺ the critical section exists -/
@@ -155,19 +172,139 @@ theorem safe_iff_locked (cfg : Cfg) : (∀ sched, Isolated (run cfg sched)) ↔ 
     cases hc : cfg.locked with
     | true => rfl
     | false =>
-      have : cfg = ⟨false⟩ := by cases cfg; simp_all
-      exact absurd (this ▸ h witness) interference_not_isolated
+      have hw : (run cfg witness).log = [(0, some 1)] := by
+        obtain ⟨l, d⟩ := cfg
+        simp only at hc
+        subst hc
+        cases d <;> decide
+      have := h witness (0, some 1) (by rw [hw]; simp)
+      simp at this
   · intro h sched
-    have : cfg = ⟨true⟩ := by cases cfg; simp_all
-    rw [this]; exact with_lock_isolated sched
+    obtain ⟨l, d⟩ := cfg
+    simp only at h
+    subst h
+    exact with_lock_isolated d sched
 
 /-! ### the current source -/
 
 /-- what the model says about the CURRENT source (`compileLocked` is regenerated from
 `compiler_wat/compile.go` on every run): concurrent compilations are isolated for every schedule iff
 `Compile` holds a lock around `SetCurrentModule … return`. -/
-theorem current_source_safe_iff : (∀ sched, Isolated (run ⟨compileLocked⟩ sched)) ↔ compileLocked = true :=
-  safe_iff_locked ⟨compileLocked⟩
+theorem current_source_safe_iff :
+    (∀ sched, Isolated (run ⟨compileLocked, compileUnlockDeferred⟩ sched)) ↔ compileLocked = true :=
+  safe_iff_locked ⟨compileLocked, compileUnlockDeferred⟩
+
+/-! ### a lock that is not released by `defer` leaks when a compilation panics -/
+
+/-- After one session began and panicked under a lock WITHOUT deferred unlock, the system is stuck: whatever
+any session does afterwards (every schedule), nobody ever becomes active again — every later API call blocks. -/
+theorem leaked_lock_blocks_everyone (sched : List (Sess × Act)) :
+    (runFrom ⟨true, false⟩ (run ⟨true, false⟩ crashOnce) sched).active = [] ∧
+    (runFrom ⟨true, false⟩ (run ⟨true, false⟩ crashOnce) sched).log = [] := by
+  have h0 : run ⟨true, false⟩ crashOnce = ⟨some 0, some 0, [], []⟩ := by decide
+  rw [h0]
+  have h : ∀ st : St, st.lock = some 0 → st.active = [] → st.log = [] →
+      (runFrom ⟨true, false⟩ st sched).active = [] ∧ (runFrom ⟨true, false⟩ st sched).log = [] := by
+    induction sched with
+    | nil => intro st _ ha hg; exact ⟨ha, hg⟩
+    | cons e es ih =>
+      intro st hl ha hg
+      obtain ⟨s, a⟩ := e
+      have hs : step ⟨true, false⟩ st (s, a) = st := by
+        cases a <;> simp [step, ha, hl]
+      simp only [runFrom, foldl_cons, hs]
+      exact ih st hl ha hg
+  exact h _ rfl rfl rfl
+
+/-- under the lock, only the holder is active (first component of `LockInv`, on its own) -/
+theorem step_active_holds (d : Bool) (st : St) (e : Sess × Act)
+    (h1 : ∀ s ∈ st.active, st.lock = some s) :
+    ∀ s ∈ (step ⟨true, d⟩ st e).active, (step ⟨true, d⟩ st e).lock = some s := by
+  obtain ⟨s, a⟩ := e
+  cases a with
+  | begin =>
+    simp only [step]
+    split
+    · exact h1
+    · cases hl : st.lock with
+      | some t => simp; exact fun u hu => hl ▸ h1 u hu
+      | none =>
+        have hempty : st.active = [] := by
+          cases hact : st.active with
+          | nil => rfl
+          | cons t ts =>
+            have := h1 t (by simp [hact])
+            simp [hl] at this
+        simp [hempty]
+  | read =>
+    simp only [step]; split
+    · exact h1
+    · exact h1
+  | finish =>
+    simp only [step]; split
+    · next hact =>
+      intro t ht
+      simp only [mem_filter, decide_eq_true_eq] at ht
+      have := h1 t ht.1
+      rw [h1 s hact] at this
+      exact absurd (Option.some.inj this).symm ht.2
+    · exact h1
+  | crash =>
+    simp only [step]; split
+    · next hact =>
+      intro t ht
+      simp only [mem_filter, decide_eq_true_eq] at ht
+      have := h1 t ht.1
+      rw [h1 s hact] at this
+      exact absurd (Option.some.inj this).symm ht.2
+    · exact h1
+
+/-- with deferred unlock, a held lock always belongs to an active session -/
+theorem step_holder_active (st : St) (e : Sess × Act)
+    (h : ∀ s, st.lock = some s → s ∈ st.active) (h1 : ∀ s ∈ st.active, st.lock = some s) :
+    ∀ s, (step ⟨true, true⟩ st e).lock = some s → s ∈ (step ⟨true, true⟩ st e).active := by
+  obtain ⟨s, a⟩ := e
+  cases a with
+  | begin =>
+    simp only [step]
+    split
+    · exact h
+    · cases hl : st.lock with
+      | some t => simp; exact fun u hu => h u (hl ▸ hu)
+      | none => simp
+  | read =>
+    simp only [step]; split
+    · exact h
+    · exact h
+  | finish =>
+    simp only [step]; split
+    · next hact => intro u hu; simp [h1 s hact] at hu
+    · exact h
+  | crash =>
+    simp only [step]; split
+    · next hact => intro u hu; simp [h1 s hact] at hu
+    · exact h
+
+/-- With deferred unlock the lock is only ever held by an active session: when nobody is active the lock is
+free, so the next `begin` succeeds — a panicking compilation cannot block the others. -/
+theorem deferred_unlock_never_leaks (sched : List (Sess × Act)) :
+    ∀ s, (run ⟨true, true⟩ sched).lock = some s → s ∈ (run ⟨true, true⟩ sched).active := by
+  have h : ∀ st : St, (∀ s, st.lock = some s → s ∈ st.active) → (∀ s ∈ st.active, st.lock = some s) →
+      (∀ s, (runFrom ⟨true, true⟩ st sched).lock = some s → s ∈ (runFrom ⟨true, true⟩ st sched).active) := by
+    induction sched with
+    | nil => intro st h _; exact h
+    | cons e es ih =>
+      intro st h h1
+      simp only [runFrom, foldl_cons]
+      exact ih _ (step_holder_active st e h h1) (step_active_holds true st e h1)
+  exact h St.init (by intro s hs; cases hs) (by intro s hs; cases hs)
+
+example : (run ⟨true, true⟩ (crashOnce ++ [(1, .begin), (1, .read)])).log = [(1, some 1)] ∧
+    (run ⟨true, false⟩ (crashOnce ++ [(1, .begin), (1, .read)])).log = [] := by decide
+
+/-- the regenerated lock facts obey the discipline "acquired ⇒ released by defer" (or the generator says they do not) -/
+theorem lock_discipline_claim :
+    lockDiscipline compileLockAcquired compileUnlockDeferred = claimLockDiscipline := by decide
 
 /-- every package-level variable written after init in the anchored packages carries an audit verdict -/
 theorem globals_accounted_claim : allGlobalsAccounted globals = claimGlobalsAccounted := by decide
